@@ -153,6 +153,13 @@ def no_cached_descriptor(ctx, rep, rule, class_quals):
                 for n in A.walk(m.node):
                     if isinstance(n, ast.Assign) and any(K.self_attr(t) for t in n.targets):
                         v = n.value
+                        if isinstance(v, ast.Name):
+                            # through a local of the same method
+                            for d_ in A.walk(m.node):
+                                if isinstance(d_, ast.Assign) and any(isinstance(t, ast.Name) and t.id == v.id for t in d_.targets) \
+                                        and isinstance(d_.value, ast.Call):
+                                    v = d_.value
+                                    break
                         cached = [x for x in ast.walk(v) if isinstance(x, ast.Call) and isinstance(x.func, ast.Attribute)
                                   and x.func.attr == "fileno"] or (
                             isinstance(v, ast.Call) and (A.call_name(v) or "").split(".")[-1] in ("poll", "epoll", "select", "DefaultSelector"))
